@@ -865,7 +865,7 @@ fn random_case(ts: &[Target], rng: &mut Rng, c: &mut Collector) {
         }
         10 => {
             // strings of 0..3 chars: one-char strings are chars, everything is a String
-            let chars = ['a', 'Z', '0', ' ', '\'', '"', '\\', '\n', 'é', '😬', '#', '1', '-', 't'];
+            let chars = ['a', 'Z', '0', ' ', '\'', '"', '\\', '\n', 'é', '😬', '#', '1', '-', 't', '\u{fe0f}', '\u{301}', '❤'];
             // (... and now and then long ones, with characters of several bytes at any offset: what a
             // target refuses it has to refuse with an error, whatever it does to the text for its message)
             let (n, class) = if rng.chance(1, 4) {
